@@ -32,7 +32,17 @@ def fragment():
                               null_left=True, dt_offsets="z", like_wildcards="A3" not in k)
 
 
-STYLES = ("orm-select", "orm-legacy", "core")
+STYLES = ("orm-select", "orm-legacy", "core", "orm-visitor", "core-visitor")
+
+
+def _ast(text, rewrite):
+    """The documented three steps: parse, optionally modify the tree (here: an alias rewriter whose
+    aliases do not occur), hand it to a visitor."""
+    a = lib.parse(text)
+    if rewrite:
+        from odata_query.rewrite import AliasRewriter
+        a = AliasRewriter({"zz_not_a_field": "zz/other"}).visit(a)
+    return a
 
 
 def run_style(S, style, text):
@@ -44,6 +54,18 @@ def run_style(S, style, text):
     if style == "orm-legacy":
         q = apply_odata_query(S.session.query(S.Item), text)
         return sorted(o.id for o in q.all())
+    if style == "orm-visitor":
+        from odata_query.sqlalchemy.orm import AstToSqlAlchemyOrmVisitor
+        v = AstToSqlAlchemyOrmVisitor(S.Item)
+        where = v.visit(_ast(text, len(text) % 2 == 0))
+        stmt = sa.select(S.Item)
+        for j in v.join_relationships:
+            stmt = stmt.join(j, isouter=True)
+        return sorted(o.id for o in S.session.execute(stmt.where(where)).scalars().all())
+    if style == "core-visitor":
+        from odata_query.sqlalchemy.core import AstToSqlAlchemyCoreVisitor
+        where = AstToSqlAlchemyCoreVisitor(S.Item.__table__).visit(_ast(text, len(text) % 2 == 1))
+        return sorted(r.id for r in S.conn.execute(sa.select(S.Item.__table__).where(where)).all())
     stmt = apply_odata_core(sa.select(S.Item.__table__), text)
     return sorted(r.id for r in S.conn.execute(stmt).all())
 
